@@ -153,7 +153,7 @@ def run(rep):
             rep.lost("PASS-ARMS", "PASS-ARMS/anchor/" + pname, pname)
             continue
         m = unblock(f.body)
-        if m.get("k") != "Match" or show(m["scrut"]) != "expression":
+        if m.get("k") != "Match" or q.var_id(m["scrut"]) != strip_ref(f.thir["params"][0]["pat"]).get("id"):
             rep.lost("PASS-ARMS", "PASS-ARMS/shape/" + pname, "pass is a single match on its argument")
             continue
         covered = set()
@@ -167,7 +167,7 @@ def run(rep):
                 rep.bad("PASS-ARMS", key, a["sp"], "no wildcard arm (every node kind is handled explicitly)", ps)
                 continue
             body = unblock(a["body"])
-            if body.get("k") == "Var" and body["name"] == "expression":
+            if body.get("k") == "Var" and body["id"] == strip_ref(f.thir["params"][0]["pat"]).get("id"):
                 # identity: allowed for leaves, for Matrix/Search/Identifier (no children this pass looks into)
                 composite = kinds & {"BooleanExpression", "Match", "Negate", "Nested"}
                 okid = not composite
@@ -180,7 +180,7 @@ def run(rep):
             if congruent(F, pname, a):
                 rep.ok("PASS-ARMS", key, a["sp"], "congruence: node rebuilt, every child through one recursive call to its own position")
                 continue
-            law = REVIEWED.get((pname, ps))
+            law = next((v_ for (pn_, pp_), v_ in REVIEWED.items() if pn_ == pname and ps == pp_), None)
             rep.check(law is not None, "PASS-ARMS", key, a["sp"], "rewrite arm is in the reviewed table", "reviewed as %s" % law if law else "UNREVIEWED rewrite arm: " + show(a["body"])[:100])
         allk = {"BooleanGroup", "BooleanExpression", "Boolean", "Cast", "Field", "Float", "Identifier", "Integer", "Match", "Matrix", "Negate", "Nested", "Null", "Search"}
         rep.check(covered == allk, "PASS-ARMS", "PASS-ARMS/%s/covers-all" % pname.split("::")[-1], f.sp, "all 14 node kinds are covered", str(sorted(allk - covered)))
@@ -265,8 +265,7 @@ def run(rep):
                 check_flatten_order(rep, a)
             if ps == "Expression::Negate($expression)":
                 s = show(a["body"])
-                ok = s == "{let $expression = optimiser::shake_0(expression); match expression {Expression::Negate($inner) => optimiser::shake_0(inner), _ => Expression::Negate(<T>::new(expression))}}"
-                rep.check(ok, "PASS-ARMS", "PASS-ARMS/shake_0/negate-shape", a["sp"], "Negate arm: shake the operand; collapse only Negate(Negate(x)); otherwise rebuild", s[:120])
+                rep.check(negate_shape(a), "PASS-ARMS", "PASS-ARMS/shake_0/negate-shape", a["sp"], "Negate arm: shake the operand; collapse only Negate(Negate(x)); otherwise rebuild", s[:120])
             if ps == "Expression::BooleanGroup($symbol, $expressions)":
                 check_group_unwrap(rep, a, "shake_0")
     # ---------------------------------------------------------------- ORDER-AND in shake_1 and matrix
@@ -307,17 +306,17 @@ def run(rep):
             blk = [n for n in walk(ro.body) if n.get("k") == "If" and show(n["cond"]) == "options." + sw]
             ok = len(blk) == 1 and ("self.detection.expression = %s(self.detection.expression" % fn) in show(blk[0]["then"]) and not blk[0].get("else")
             rep.check(ok, "OPT-SWITCHES", "OPT-SWITCHES/" + sw, ro.sp, "switch `%s` applies exactly %s to the condition" % (sw, fn.split("::")[-1]), "")
-        for i, pas in enumerate(("shake", "rewrite", "matrix")):
-            c = F.fn("rule::Rule::optimise::{closure#%d}" % i)
-            if c is None:
+        import optsites
+        osites = optsites.sites(F) or []
+        for pas in ("shake", "rewrite", "matrix"):
+            mine = [s_ for s_ in osites if s_["pass"] == "optimiser::" + pas]
+            if not mine:
                 continue
+            c = type("Site", (), {"sp": mine[0]["sp"]})()
             changes_count = pas in ("shake", "matrix")
             if changes_count:
                 # identifiers are still referenced by all(X)/of(X, n) when coalesce did not run; merging their members changes the count
-                guarded = False
-                for n, path in walk_with_path(ro.body):
-                    if n.get("k") == "Closure" and n["def"] == c.name:
-                        guarded = any(p.get("k") == "If" and "coalesce" in show(p["cond"]) for p in path)
+                guarded = any(p.get("k") == "If" and "coalesce" in show(p["cond"]) for p in mine[0]["path"])
                 rep.check(guarded, "COUNTER-CONTEXT", "COUNTER-CONTEXT/Rule::optimise/%s-on-identifiers" % pas, c.sp,
                           "a pass that merges or-members (%s) is not applied to identifier definitions that all()/of() may still count" % pas,
                           "optimise maps %s over every identifier definition even when coalesce is off, so all(X)/of(X,n) count merged members" % pas)
@@ -344,7 +343,15 @@ def run(rep):
         rep.check(last is not None and strip_ref(last["pat"]).get("k") == "Wild" and show(last["body"]) == "search", "REWRITE-CONST", "REWRITE-CONST/others-untouched", rs.sp, "every other search kind is returned unchanged", "")
     # shake() is shake_0 then shake_1
     sh = F.fn("optimiser::shake")
-    rep.check(sh is not None and show(sh.body) == "{let $expression = optimiser::shake_0(expression); optimiser::shake_1(expression)}", "OPT-SWITCHES", "OPT-SWITCHES/shake-composition", sh.sp if sh else "-", "shake = shake_1 . shake_0", show(sh.body) if sh else "-")
+    okc = False
+    if sh is not None:
+        t = unblock(sh.body)
+        while t.get("k") == "Block" and t.get("expr") is not None:
+            t = unblock(t["expr"])
+        inner = q.resolve(sh.body, t["args"][0]) if call_is(t, "optimiser::shake_1") and len(t["args"]) == 1 else {}
+        ncalls = len([x for x in walk(sh.body) if x.get("k") == "Call" and x.get("local")])
+        okc = call_is(inner, "optimiser::shake_0") and q.var_id(inner["args"][0]) == strip_ref(sh.thir["params"][0]["pat"]).get("id") and ncalls == 2
+    rep.check(okc, "OPT-SWITCHES", "OPT-SWITCHES/shake-composition", sh.sp if sh else "-", "shake = shake_1 . shake_0", show(sh.body) if sh else "-")
     # ---------------------------------------------------------------- LINEAR: no operand is dropped
     rep.describe("LINEAR", "no member of a group is dropped: no Vec-shrinking call in the passes; a map that collects conjuncts never overwrites an entry")
     DROPPERS = ("::dedup", "::dedup_by", "::dedup_by_key", "::retain", "::retain_mut", "::truncate", "::remove", "::pop", "::clear", "::drain", "::swap_remove", "::split_off", "::take", "::skip", "::step_by", "::filter", "::filter_map", "::take_while", "::skip_while")
@@ -395,24 +402,56 @@ def run(rep):
     rep.assumptions.append("Nested-merge laws (nested(f,a) or nested(f,b) == nested(f, a or b)) are argued from the solver's nested arm (C10), not evaluated")
 
 
+def negate_shape(arm):
+    """{ let X = shake_0(*operand); X is Negate(inner) => shake_0(*inner); otherwise => Negate(Box::new(X)) }  (match or if-let)"""
+    opid = strip_ref(subpat(arm["pat"], 0)).get("id")
+    b = unblock(arm["body"])
+    if b.get("k") != "Block" or len(b["stmts"]) != 1 or b["stmts"][0]["k"] != "Let" or b.get("expr") is None:
+        return False
+    st = b["stmts"][0]
+    x = strip_ref(st["pat"])
+    init = peel(st["init"])
+    if x.get("k") != "Bind" or not call_is(init, "optimiser::shake_0") or q.var_id(init["args"][0]) != opid:
+        return False
+    scrut, brs = q.branches(b["expr"])
+    if scrut is None or q.var_id(scrut) != x["id"] or len(brs) != 2:
+        return False
+    (p0, b0), (p1, b1) = brs
+    if p0 is None or variant_of(p0) != ("Expression", "Negate") or p1 is not None or b1 is None:
+        return False
+    inner = strip_ref(subpat(p0, 0))
+    c0 = unblock(b0)
+    ok0 = call_is(c0, "optimiser::shake_0") and inner is not None and q.var_id(c0["args"][0]) == inner.get("id")
+    c1 = unblock(b1)
+    ok1 = c1.get("k") == "Adt" and c1["adt"] == "parser::Expression" and c1["variant"] == "Negate" and is_box_new(c1["fields"][0]["e"]) and q.var_id(peel(c1["fields"][0]["e"])["args"][0]) == x["id"]
+    return ok0 and ok1
+
+
 def check_group_unwrap(rep, arm, pname):
-    s = show(arm["body"])
-    ok = ("if (<T, A>::len(expressions) Ne length) {optimiser::%s(Expression::BooleanGroup(symbol, expressions))} else {if (<T, A>::len(expressions) Eq 1) "
-          "{<T>::expect(Iterator::next(IntoIterator::into_iter(expressions)), \"..\")} else {Expression::BooleanGroup(symbol, expressions)}}" % pname) in s
+    s = show(q.inline_pure_lets(arm["body"], [arm["pat"]]))
+    # (with pure lets substituted: `length` is the length of the incoming vector, `expressions` the rebuilt one)
+    ok = bool(re.search(r"if \(<T, A>::len\((\w+)\) Ne <T, A>::len\(\w+\)\) \{optimiser::%s\(Expression::BooleanGroup\((\w+), \1\)\)\} else \{if \(<T, A>::len\(\1\) Eq 1\) "
+                        r"\{<T>::expect\(Iterator::next\(IntoIterator::into_iter\(\1\)\), \"\.\.\"\)\} else \{Expression::BooleanGroup\(\2, \1\)\}\}" % pname, str(s)))
     rep.check(ok, "PASS-ARMS", "PASS-ARMS/%s/group-tail" % pname, arm["sp"], "group arm ends: re-run if the length changed, unwrap a group of one, else rebuild with the same symbol", s[-160:])
     # operands are shaken in order in both symbol branches
     src_id = strip_ref(subpat(arm["pat"], 1)).get("id")
     loops = [n for n in walk(arm["body"]) if n.get("k") == "For" and q.var_id(n["iter"]) == src_id]
     def elementwise(l):
-        b = unblock(l["body"])
-        if b.get("k") != "Block" or len(b["stmts"]) != 2 or b.get("expr"):
+        # the loop body is exactly: push(<out>, pass(<this element>))   (the pass result possibly through a let)
+        pushes = [x for x in walk(l["body"]) if call_is(x, "::push")]
+        if len(pushes) != 1 or not q._unconditional(l["body"], pushes[0]):
             return False
-        s0, s1 = b["stmts"]
-        if not (s0["k"] == "Let" and s0["pat"].get("k") == "Bind" and call_is(peel(s0["init"]), "optimiser::" + pname) and q.var_id(peel(s0["init"])["args"][0]) == l["pat"].get("id")):
-            return False
-        c = peel(s1["e"]) if s1["k"] == "Expr" else {}
-        return call_is(c, "::push") and q.var_id(c["args"][1]) == s0["pat"]["id"]
-    okl = len(loops) == 2 and all(elementwise(l) for l in loops)
+        v = q.resolve(l["body"], pushes[0]["args"][1])
+        others = [x for x in walk(l["body"]) if x.get("k") == "Call" and x is not pushes[0] and x is not v]
+        return call_is(v, "optimiser::" + pname) and q.var_id(v["args"][0]) == strip_ref(l["pat"]).get("id") and not others
+    # every group symbol's branch has such a loop (one loop per symbol, or one loop under an `And | Or` arm)
+    syms = set()
+    for n, path in walk_with_path(arm["body"]):
+        if any(n is l for l in loops):
+            for e in q.context(path, n):
+                if e[0] == "arm":
+                    syms |= {variant_of(p_)[1] for p_ in or_pats(e[1]) if variant_of(p_) and variant_of(p_)[0] == "BoolSym"}
+    okl = bool(loops) and all(elementwise(l) for l in loops) and syms == {"And", "Or"} and len(loops) <= 2
     rep.check(okl, "ORDER-AND", "ORDER-AND/%s/group-elementwise" % pname, arm["sp"], "group operands are processed one by one in order", "%d loops" % len(loops))
 
 
